@@ -1,4 +1,5 @@
 import RreModel.C04.MaskLemmas
+import RreModel.C04.ArgLemmas
 /-
 C04 — property theorems (only).  "Parsing GRL yields exactly the rules that were written."
 The statements quantify over every condition tree, every admissible layout of it (`LT`: any white
@@ -449,5 +450,63 @@ example : parseWhen (fun x => Except.ok x) exTree.render
 
 example : statements (renderStmts [([], "Y = 2".toList, [' ']), (['\n'], "log(\"x\")".toList, [])] [' ']) =
     ["Y = 2".toList, "log(\"x\")".toList] := by decide +kernel
+
+/-! ## string literals are opaque inside an argument list -/
+
+/-- **Argument lists.** `functionName(a, b, …) op value`, `test(functionName(a, b, …))` (and, with `parse_value` in place of
+`unmask`, every action form with an argument list) cut the text between the parentheses out of the MASKED rule text, split it at
+every comma, trim each piece and only then restore the literals.  For every list of one or more arguments, each any mixture of
+code and string literals whose bodies are ARBITRARY (only the own quote character and a line break are excluded) — padded with
+any white space, and trimmed / comma-free once the literals are emptied — the result is exactly the arguments that were
+written, in order: a comma, a parenthesis, a quote of the other kind, `&&`, `;` … inside a literal never separates anything.
+`pre` / `post`: the literals of the rule text before / after the list (the list is a slice of a larger masked text). -/
+theorem splitArgs_strlit_opaque (T pre post : List Str) (a : Arg) (as : List Arg) (h : ∀ b ∈ a :: as, b.Ok)
+    (hT : T = pre ++ litsArgs (a :: as) ++ post) :
+    splitArgs T (joinComma (maskedArgsAt pre.length (a :: as))) = (a :: as).map fun b => renderSegs b.segs := by
+  unfold splitArgs
+  rw [joinComma_trim_ne pre.length a as (h a (by simp))]
+  simp only [Bool.false_eq_true, if_false]
+  have hs : splitCommaGo (joinComma (maskedArgsAt pre.length (a :: as))) [] = maskedArgsAt pre.length (a :: as) := by
+    have hc := maskedArgsAt_no_comma pre.length (a :: as) h
+    simp only [maskedArgsAt] at hc ⊢
+    exact splitCommaGo_join _ _ hc
+  rw [hs]
+  exact maskedArgsAt_unmask T pre post (a :: as) h hT
+
+/-- … and from the text as written: mask the rendered list, split, trim, unmask -/
+theorem splitArgs_mask_render (a : Arg) (as : List Arg) (h : ∀ b ∈ a :: as, b.Ok) :
+    splitArgs (lits (renderArgs (a :: as))) (mask (renderArgs (a :: as))) = (a :: as).map fun b => renderSegs b.segs := by
+  obtain ⟨_, m, l⟩ := renderArgs_piece (a :: as) h
+  unfold mask
+  rw [m, l]
+  exact splitArgs_strlit_opaque (litsArgs (a :: as)) [] [] a as h (by simp)
+
+/-- the order matters: restoring the literals BEFORE the split (seeded change C04-9) makes the comma inside
+`"red,green"` a separator -/
+theorem splitArgs_unmask_first_counterexample :
+    let src := "User.tags, \"red,green\"".toList
+    splitArgs [] (unmask (lits src) (mask src)) = ["User.tags".toList, "\"red".toList, "green\"".toList]
+    ∧ splitArgs (lits src) (mask src) = ["User.tags".toList, "\"red,green\"".toList] := by
+  decide +kernel
+
+/-- `containsAny( User.tags ,"red,green" , 'a) && (b;' )` — three arguments, commas / parentheses / `&&` / `;` inside literals -/
+def exArgs : List Arg :=
+  [⟨[' '], [.code "User.tags".toList], [' ']⟩, ⟨[], [.lit '"' "red,green".toList], [' ']⟩,
+   ⟨[' '], [.lit '\'' "a) && (b;".toList], ['\t']⟩]
+
+theorem exArgs_ok : ∀ a ∈ exArgs, a.Ok := by
+  intro a ha
+  simp only [exArgs, List.mem_cons, List.mem_nil_iff, or_false] at ha
+  rcases ha with rfl | rfl | rfl <;>
+    refine ⟨?_, by intro c hc; revert c; decide, by intro c hc; revert c; decide, by decide, by intro c hc; revert c; decide⟩ <;>
+    intro x hx <;> simp only [List.mem_cons, List.mem_nil_iff, or_false] at hx <;> subst hx
+  · exact ⟨by intro c hc; revert c; decide, by intro c hc; revert c; decide⟩
+  · exact ⟨Or.inl rfl, by intro c hc; revert c; decide⟩
+  · exact ⟨Or.inr rfl, by intro c hc; revert c; decide⟩
+
+example : renderArgs exArgs = " User.tags ,\"red,green\" , 'a) && (b;'\t".toList := by decide +kernel
+
+example : splitArgs (lits (renderArgs exArgs)) (mask (renderArgs exArgs))
+    = ["User.tags".toList, "\"red,green\"".toList, "'a) && (b;'".toList] := by decide +kernel
 
 end C04
